@@ -692,6 +692,105 @@ func checkC16(c *Ctx) {
 	}
 
 	// ---- C16.6
+	// ---- C16.8 "a peer that stops sending heartbeats causes the connection to close within the heartbeat timeout": the
+	// watchdog's flag is raised by a heartbeat and by nothing else - every write of a non-zero value to hbConn.waiting is
+	// dominated by the comparison of the received message with the heartbeat payload
+	r.Rule("C16.8", "the watchdog flag is raised only by a received heartbeat", 1)
+	{
+		n := 0
+		for _, f := range c.funcsOfPkgs(dt) {
+			for _, ff := range withAnon(f) {
+				eachInstr(ff, func(in ssa.Instruction) {
+					call, ok := in.(*ssa.Call)
+					if !ok || !strings.HasPrefix(calleeName(&call.Call), "sync/atomic.") || len(call.Call.Args) < 2 {
+						return
+					}
+					if o, fld, ok := fieldOwner(call.Call.Args[0]); !ok || o != "dtls.hbConn" || fld != "waiting" {
+						return
+					}
+					name := calleeName(&call.Call)
+					if !strings.HasSuffix(name, ".AddUint32") && !strings.HasSuffix(name, ".StoreUint32") && !strings.HasSuffix(name, ".SwapUint32") && !strings.HasSuffix(name, ".CompareAndSwapUint32") {
+						return
+					}
+					val := call.Call.Args[len(call.Call.Args)-1]
+					if cv, isC := constOf(val); isC && cv.ExactString() == "0" {
+						return // the watchdog clearing its flag
+					}
+					if ff.Name() == "heartbeatServer" || freshRoot(call.Call.Args[0], ff) {
+						return // initial value of a connection under construction
+					}
+					n++
+					g := guardedM(ff, in, func(cnd string, pol bool) bool {
+						return pol && strings.Contains(cnd, "bytes.Equal(") && strings.Contains(cnd, ".hb")
+					})
+					r.Check(g, "C16.8", fnName(ff)+": waiting raised only for a heartbeat", in.Pos(), fnName(ff), "dominated by bytes.Equal(c.hb, message)",
+						"the watchdog flag is raised by something other than a received heartbeat: a peer whose heartbeats stopped (its sender died) keeps the connection open for as long as it sends anything at all, instead of being closed within the heartbeat timeout")
+				})
+			}
+		}
+		if n == 0 {
+			r.Unk("C16.8", "writers of hbConn.waiting", token.NoPos, "", "no atomic write of a non-zero value to the watchdog flag found")
+		}
+	}
+
+	// ---- C16.9 the accept loop hands every parent connection to a handshake goroutine; if it takes a slot of a bounded
+	// channel before starting one (a limit on concurrent handshakes), that goroutine gives the slot back on every exit -
+	// a slot lost on the failure path eventually stops the loop, and no later session is delivered to anybody
+	r.Rule("C16.9", "a slot the accept loop takes for a handshake is released on every exit of that handshake", 1)
+	if f := c.fn("C16.9", dt, "Listener", "acceptLoop"); f != nil {
+		slots := 0
+		eachInstr(f, func(in ssa.Instruction) {
+			var ch ssa.Value
+			switch x := in.(type) {
+			case *ssa.Send:
+				ch = x.Chan
+			case *ssa.Select:
+				for _, st := range x.States {
+					if st.Dir == types.SendOnly {
+						ch = st.Chan
+					}
+				}
+			}
+			if ch == nil {
+				return
+			}
+			slots++
+			// every goroutine started by the loop must receive from it on every path to its return (or defer it)
+			for _, a := range f.AnonFuncs {
+				uses := false
+				var cap ssa.Value
+				for i, fv := range a.FreeVars {
+					_ = i
+					if fv.Name() == ch.Name() || pathOf(fv) == pathOf(ch) {
+						uses, cap = true, fv
+					}
+				}
+				isRelease := func(x ssa.Instruction) bool {
+					switch y := x.(type) {
+					case *ssa.UnOp:
+						return y.Op == token.ARROW && cap != nil && (y.X == cap || pathOf(y.X) == pathOf(cap))
+					case *ssa.Defer:
+						return deferReceives(y, cap)
+					}
+					return false
+				}
+				if !uses {
+					continue
+				}
+				leak, w := reach(a, nil, isReturn, isRelease, nil)
+				if leak {
+					r.Bad("C16.9", fnName(a)+": a handshake slot is not released on some exit", in.Pos(), fnName(a),
+						"the accept loop takes a slot of "+firstN(pathOf(ch), 30)+" for every handshake, and the handshake goroutine can return without giving it back: after enough such handshakes (failed ones are free for anybody to produce) the loop blocks forever and no later connection is delivered to its acceptor", r.blockPath(a, w)...)
+				} else {
+					r.OK("C16.9", fnName(a)+": the handshake slot is released on every exit", in.Pos(), "receive (or deferred receive) on every path to a return")
+				}
+			}
+		})
+		if slots == 0 {
+			r.OK("C16.9", "acceptLoop: takes no slot (no channel send in the loop)", f.Pos(), "handshakes are not limited by a semaphore")
+		}
+	}
+
 	r.Rule("C16.6", "client heartbeat period is below the server watchdog interval", 1)
 	// the watchdog is re-armed every interval: between two inspections of the received-heartbeat flag the flag is
 	// cleared, otherwise one heartbeat keeps the connection alive forever
@@ -881,4 +980,23 @@ func checkQueuedBufferFresh(c *Ctx, rule string) {
 	if n == 0 {
 		r.Unk(rule, "recvLoop: stream.Read", f.Pos(), fnName(f), "not found")
 	}
+}
+
+// deferReceives: the deferred call is a closure whose body receives from the captured channel.
+func deferReceives(d *ssa.Defer, ch ssa.Value) bool {
+	mc, ok := d.Call.Value.(*ssa.MakeClosure)
+	if !ok || ch == nil {
+		return false
+	}
+	fn, ok := mc.Fn.(*ssa.Function)
+	if !ok {
+		return false
+	}
+	got := false
+	eachInstr(fn, func(in ssa.Instruction) {
+		if u, ok := in.(*ssa.UnOp); ok && u.Op == token.ARROW {
+			got = true
+		}
+	})
+	return got
 }
